@@ -8,7 +8,7 @@ def _name(op):
 def classify(w):
     wl = w.get("workload") or []
     what = w.get("what", "")
-    if w.get("kind") == "crash":
+    if w.get("kind") in ("crash", "exc"):
         st = w.get("state") or {}
         i = st.get("inflight")
         if i is not None and i >= 0 and "PendingTransactionError" in what and "committed entry" in what:
